@@ -225,10 +225,20 @@ def supplement(tier, seed):
         else:
             o.update({k: 5 for k in ["ny_inner_lower_divertor", "ny_inner_upper_divertor", "ny_outer_lower_divertor", "ny_outer_upper_divertor"]})
             o.update(ny_inner_sol=4, ny_outer_sol=4)
-        return {"family": "G", "entry": "api", "eq": {"topology": top, "sign": draw(st.sampled_from([1.0, -1.0])), "fpol": [2.0, 0.1, 0, 0], "wall": w}, "options": o}
+        eq = {"topology": top, "sign": draw(st.sampled_from([1.0, -1.0])), "fpol": [2.0, 0.1, 0, 0], "wall": w}
+        zs = draw(st.sampled_from([None, None, -1.5, 2.0]))
+        if zs is not None:
+            eq["geom"] = {"zshift": zs}  # a machine whose Z origin is not at the midplane
+        return {"family": "G", "entry": "api", "eq": eq, "options": o}
 
-    n = 8 if tier == "quick" else 80
-    return corpus.collect(build(), n, seed + 1100, keyfn=lambda d: "%s/%s/%s" % (d["eq"]["topology"], d["eq"]["wall"]["kind"], d["options"]["orthogonal"]))
+    n = 10 if tier == "quick" else 80
+
+    def key(d):
+        w = d["eq"]["wall"]
+        k = "%s/%s" % (w["kind"], "cw" if w["clockwise"] else "acw") + ("/zshift" if d["eq"].get("geom") else "")
+        return k if tier == "quick" else "%s/%s/%s" % (k, d["eq"]["topology"], d["options"]["orthogonal"])
+
+    return corpus.collect(build(), n, seed + 1100, keyfn=key, oversample=12)
 
 
 def run(run):
